@@ -82,6 +82,19 @@ def has_aggregate(q):
     return bool(found) or q.group_by is not None or q.having is not None or bool(q.distinct)
 
 
+def plain_targets(targets):
+    """only `*` and un-aliased (or identically aliased) column names: evaluating such a list twice is harmless"""
+    ast = _ast()
+    for t in targets:
+        if isinstance(t, ast.Star):
+            continue
+        if isinstance(t, ast.Identifier) and (t.alias is None or
+                                             str(t.alias.parts[-1]).lower() == str(t.parts[-1]).lower()):
+            continue
+        return False
+    return True
+
+
 def is_left(jt):
     return jt.upper() in ('LEFT JOIN', 'LEFT OUTER JOIN')
 
@@ -201,14 +214,23 @@ class Analysis:
         joins = [s for s in self.steps if isinstance(s, S.JoinStep)]
         if kind == 'limit':
             f = self.by_num[feats[0][1]]
+            # only the joins of the select this fetch belongs to (an operand of a set operation is planned on its own:
+            # its steps lie between the previous QueryStep / UnionStep and its own outer QueryStep)
+            lo = max([s.step_num for s in self.steps if isinstance(s, (S.QueryStep, S.UnionStep))
+                      and isinstance(s.step_num, int) and s.step_num < f.step_num] + [-1])
+            qs0 = self.next_query_step(f.step_num)
+            hi = qs0.step_num if qs0 is not None else max(s.step_num for s in self.steps)
+            joins = [j for j in joins if lo < j.step_num <= hi]
             if self.join_of[f.step_num][1] != 'left' or any(j.step_num < self.join_of[f.step_num][0].step_num for j in joins):
                 return 'not-leftmost-operand'
             later = [j for j in joins if j.step_num > f.step_num]
-            if any(not is_left(j.query.join_type) for j in later):
-                return 'nonleft-join'
             qs = self.next_query_step(f.step_num)
+            # an aggregated / grouped / DISTINCT outer query never gets the pushdown on the pinned tree, whatever the join
+            # kind: this reason comes first so that it is not taken for the (open) `nonleft-join` class
             if qs is not None and has_aggregate(qs.query):
                 return 'aggregate'
+            if any(not is_left(j.query.join_type) for j in later):
+                return 'nonleft-join'
             if qs is not None and qs.query.where is not None:
                 pushed = {str(c._orig_node) for c in conjuncts(f.query.where) if hasattr(c, '_orig_node')}
                 if any(str(c) not in pushed for c in conjuncts(qs.query.where)):
@@ -284,6 +306,10 @@ class Analysis:
                 return 'aggregate-or-distinct-evaluated-twice'
             if s.query.offset is not None and f.query.limit is not None:
                 return 'offset-after-limit'
+            if not plain_targets(f.query.targets) and not plain_targets(s.query.targets):
+                # the fetch already evaluates / renames the select list and the sub-select evaluates it AGAIN over the
+                # fetched columns (`SELECT x AS k` over a dataframe that only has `k`)
+                return 'select-list-reprojected'
             return 'unexplained'
         return 'unexplained'
 
